@@ -29,8 +29,81 @@ func sameParam(a, b Param) bool {
 	return string(x) == string(y)
 }
 
-// buildObjects builds the pkg/abi objects of a sequence
-func buildObjects(s *Spec) abi.ABI {
+// backing records every slice of *Entry / *Parameter handed to the implementation over its FULL capacity: all
+// of them are sub-slices with spare capacity whose tail holds other values (canaries, or the entries of a longer
+// slice), so an append / write through a slice the implementation was given is visible afterwards.
+type backing struct {
+	ents   []*abi.Entry
+	snapE  []*abi.Entry
+	params [][]*abi.Parameter
+	snapP  [][]*abi.Parameter
+}
+
+func (b *backing) rehouse(pa abi.ParameterArray) abi.ParameterArray {
+	full := make(abi.ParameterArray, len(pa), len(pa)+2)
+	copy(full, pa)
+	tail := full[:cap(full)]
+	tail[len(pa)] = &abi.Parameter{Name: "canary1", Type: "uint8"}
+	tail[len(pa)+1] = &abi.Parameter{Name: "canary2", Type: "bool"}
+	for _, p := range pa {
+		if p != nil && len(p.Components) > 0 {
+			p.Components = b.rehouse(p.Components)
+		}
+	}
+	b.params = append(b.params, tail)
+	return full
+}
+
+func (b *backing) snapshot() {
+	b.snapE = append([]*abi.Entry{}, b.ents...)
+	b.snapP = nil
+	for _, p := range b.params {
+		b.snapP = append(b.snapP, append([]*abi.Parameter{}, p...))
+	}
+}
+
+// changed: which backing array no longer holds the pointers it held when the objects were built
+func (b *backing) changed() string {
+	for i := range b.ents {
+		if b.ents[i] != b.snapE[i] {
+			return fmt.Sprintf("the backing array of the ABI slice changed at index %d", i)
+		}
+	}
+	for k, p := range b.params {
+		for i := range p {
+			if p[i] != b.snapP[k][i] {
+				return fmt.Sprintf("the backing array of a ParameterArray (%d parameters + spare capacity) changed at index %d", len(p)-2, i)
+			}
+		}
+	}
+	return ""
+}
+
+// buildObjects builds the pkg/abi objects of a sequence: the ABI is full[:n] of a longer array, every
+// Inputs / Outputs / Components slice has spare capacity
+func buildObjects(s *Spec) (abi.ABI, *backing) {
+	a := buildEntries(s)
+	b := &backing{}
+	for i, e := range a {
+		if s.PrefixTwin && i == len(a)-1 && i > 0 {
+			e.Inputs = a[0].Inputs[:len(e.Inputs)] // same backing array as the event's parameter list
+		} else {
+			e.Inputs = b.rehouse(e.Inputs)
+		}
+		e.Outputs = b.rehouse(e.Outputs)
+	}
+	full := make(abi.ABI, len(a), len(a)+3)
+	copy(full, a)
+	tail := full[:cap(full)]
+	for i := len(a); i < len(tail); i++ {
+		tail[i] = &abi.Entry{Type: abi.Error, Name: fmt.Sprintf("Canary%d", i), Inputs: abi.ParameterArray{}}
+	}
+	b.ents = tail
+	b.snapshot()
+	return full, b
+}
+
+func buildEntries(s *Spec) abi.ABI {
 	var a abi.ABI
 	switch s.Mode {
 	case "shared":
@@ -209,9 +282,15 @@ func (s *Spec) identity() string { return fmt.Sprintf("%s|%d|%s", s.Kind, s.Obj,
 // attach the shared objects to a step
 func (s *Spec) bind(seq *Spec, objs abi.ABI, names []string) {
 	s.aabi = objs
+	s.arena = cv.NewArena(4096)
+	k := len(objs)
+	if s.Prefix > 0 && s.Prefix < k {
+		k = s.Prefix
+		s.aabi = objs[:k] // shorter slice, same backing array: what follows are the longer ABI's entries
+	}
 	if s.Kind == "err" {
-		s.ABI = seq.ABI
-		s.coqEnts = names
+		s.ABI = seq.ABI[:k]
+		s.coqEnts = names[:k]
 		return
 	}
 	s.Entry = seq.ABI[s.Obj]
@@ -220,7 +299,7 @@ func (s *Spec) bind(seq *Spec, objs abi.ABI, names []string) {
 }
 
 func (s *Spec) unbind() {
-	s.aabi, s.ae, s.coqEnt, s.coqEnts = nil, nil, "", nil
+	s.aabi, s.ae, s.coqEnt, s.coqEnts, s.arena = nil, nil, "", nil, nil
 	s.Entry, s.ABI = nil, nil
 }
 
@@ -233,7 +312,7 @@ func runStep(step *Spec, st *cv.Stats) string {
 }
 
 func runSeq(s *Spec, st *cv.Stats) string {
-	objs := buildObjects(s)
+	objs, back := buildObjects(s)
 	names := make([]string, len(s.ABI))
 	var lets []string
 	for i, e := range s.ABI {
@@ -251,11 +330,37 @@ func runSeq(s *Spec, st *cv.Stats) string {
 	}
 	var terms []string
 	first := map[string]int{}
+	if s.Par > 0 && s.First {
+		if c := back.changed(); c != "" {
+			s.Changed = append(s.Changed, "after the concurrent pass: "+c)
+			back.snapshot()
+		}
+	}
 	for i, step := range s.Steps {
+		step.aliasing = nil
 		if t := runStep(step, st); t != "" {
 			terms = append(terms, t)
 		}
 		st.Hit("seq-step:" + step.Kind)
+		// the caller's memory is as it was: slices of entries / parameters over their full capacity, the arena
+		// the byte inputs were carved from
+		if c := back.changed(); c != "" {
+			step.aliasing = append(step.aliasing, c)
+			back.snapshot()
+		}
+		for _, al := range step.aliasing {
+			s.Changed = append(s.Changed, fmt.Sprintf("step %d (%s on %s) wrote to memory of the caller: %s", i, step.Kind, step.Describe, al))
+		}
+		// the same request on separately allocated objects and inputs gives the same answer
+		if step.Kind != "touch" {
+			f := *step
+			f.ae, f.aabi, f.arena, f.retain = nil, nil, nil, nil
+			run(&f, cv.NewStats())
+			if f.Observed != step.Observed {
+				s.Changed = append(s.Changed, fmt.Sprintf("step %d (%s on %s) answers differently on the shared / aliased objects than on separately allocated copies: shared %s -- separate %s",
+					i, step.Kind, step.Describe, step.Observed, f.Observed))
+			}
+		}
 		if step.Kind == "touch" && step.panicked {
 			s.Changed = append(s.Changed, fmt.Sprintf("step %d (%s) panicked: %s", i, step.Describe, step.Observed))
 		}
